@@ -5,6 +5,11 @@ export PATH="$PATH:/usr/local/go/bin"
 build_fmc() {
   # Rebuilds the explorer against /repo's current working tree (incremental; go.mod replaces the
   # module path with /repo, so any edit there is compiled in). go.sum follows the repository's.
-  ( cd "$VERIF_ROOT/mc" && cp /repo/go.sum go.sum && \
+  local repo="${VERIF_REPO:-/repo}"
+  if [ "$repo" != /repo ]; then
+    # isolated run on a scratch copy of the repository (never used by the registered commands)
+    ( cd "$VERIF_ROOT/mc" && go mod edit -replace "github.com/tendermint/fundraising=$repo" ) || return 2
+  fi
+  ( cd "$VERIF_ROOT/mc" && cp "$repo/go.sum" go.sum && \
     go build -tags verif -o "$VERIF_ROOT/bin/fmc" ./cmd/fmc ) || { echo "BUILD FAILED (the harness does not compile against /repo's working tree)"; return 2; }
 }
